@@ -7,8 +7,10 @@ inputs `src` and logs `l`.
 
 This file: the operand decoders (`decodeNumber` with `decodeCoordinate`/`decodeReal`, `decodeAngle`,
 `decodeArcToFlags`, `decodeCoordinates`), the styling instructions (`decodeSetCReg`, `decodeSetNReg`,
-`decodeStartPath`, `decodeSetLOD`) and the styling dispatch `decodeStyling`.  `decodeDrawing` is in
-`Decoder2.lean`/`Decoder3.lean`, `decodeMetadataChunk` in `Decoder4.lean`.
+`decodeStartPath`, `decodeSetLOD`) and the styling dispatch `decodeStyling`.  `decodeDrawing`: `Decoder2.lean`,
+`Decoder3.lean` (its repetition loops) and `Decoder4.lean`; `decodeMetadataChunk`: `Decoder5.lean`; the instruction
+stream (Go's loop over the mode functions = `Dec.loop`): `Decoder6.lean`; the whole `Decode` = `Dec.decode`:
+`Decoder7.lean`.
 
 Every mode-function tie has the form
 
@@ -112,7 +114,7 @@ theorem decodeArcToFlags_code_tie (src : Bytes) :
     by_cases a : u % 2 = 0 <;> by_cases b : u / 2 % 2 = 0 <;> simp [a, b]
 tolerant
 /-- the loop of `decodeCoordinates`, from index `k` with the elements `m` -/
-theorem decodeCoordinates_loop (n : Nat) : ∀ (fuel k : Nat) (m : List F32) (src : Bytes),
+theorem decoder_decodeCoordinates_loop (n : Nat) : ∀ (fuel k : Nat) (m : List F32) (src : Bytes),
     m.length = n → k ≤ n → n - k + 1 ≤ fuel →
     decode_decodeCoordinates__pnil.loop1_1 (n : Int) fuel src ((k : Int) - 1) m =
       match Dec.decodeCoordinates (n - k) src with
@@ -157,7 +159,7 @@ theorem decodeCoordinates_loop (n : Nat) : ∀ (fuel k : Nat) (m : List F32) (sr
           intro i
           grind
         rcases hc : Dec.decodeCoordinates j rest with ⟨its, _ | ⟨xs, rest'⟩⟩
-        · simp only [hit, numsOf, List.length_cons, t1, List.append_assoc, List.singleton_append, List.cons_append]
+        · simp only [hit, numsOf, List.length_cons, t1, List.append_assoc, List.cons_append]
           simp only [List.drop_set]
           rw [if_pos (by omega)]
           have e3 : k + 1 + (its.length + 1) = k + (its.length + 1 + 1) := by omega
@@ -175,7 +177,7 @@ tolerant
 theorem decodeCoordinates_code_tie (fuel : Nat) (coords : List F32) (src : Bytes) (hf : coords.length + 1 ≤ fuel) :
     decode_decodeCoordinates__pnil fuel coords src
       = coordsResOf coords (Dec.decodeCoordinates coords.length src) := by
-  have h := decodeCoordinates_loop coords.length fuel 0 coords src rfl (Nat.zero_le _) (by omega)
+  have h := decoder_decodeCoordinates_loop coords.length fuel 0 coords src rfl (Nat.zero_le _) (by omega)
   simp only [Nat.sub_zero, List.take_zero, List.nil_append, Nat.zero_add, Int.ofNat_zero,
     Int.zero_sub] at h
   unfold decode_decodeCoordinates__pnil
@@ -184,7 +186,7 @@ theorem decodeCoordinates_code_tie (fuel : Nat) (coords : List F32) (src : Bytes
   rcases Dec.decodeCoordinates coords.length src with ⟨its, _ | ⟨xs, rest⟩⟩ <;> rfl
 
 /-! non-vacuity / concrete instance: two coordinates decoded from four bytes, and a failure on the second -/
-example : decode_decodeCoordinates__pnil 3 [⟨0⟩, ⟨0⟩] [0x80, 0x41, 0x7e, 0x99] = ([0x99], none, [⟨0⟩, ⟨0xbf800000⟩]) := by
+example : decode_decodeCoordinates__pnil 3 [⟨0⟩, ⟨0⟩] [0x80, 0x41, 0x7e, 0x99] = ([0x99], none, [⟨0⟩, ⟨3219128320⟩]) := by
   decide
 example : decode_decodeCoordinates__pnil 3 [⟨1⟩, ⟨2⟩] [0x82, 0x41] = ([], some "invalid number", [⟨0x3f800000⟩, ⟨0⟩]) := by
   decide
@@ -293,5 +295,44 @@ theorem decodeSetLOD_code_tie (l : CallLog) (src : Bytes) (hs : src ≠ []) :
     · simp [valResOf, stepResOf, hy, (decoder_decodeNumber_some hx).1]
     · simp [valResOf, stepResOf, hy, logOps, modeName, (decoder_decodeNumber_some hx).1,
         (decoder_decodeNumber_some hy).1]
+
+/-! ## the styling dispatch -/
+
+tolerant
+/-- `decodeStyling(dst, nil, src)` (decode/decode.go) = `Dec.decodeStyling src`, for every non-empty `src` and log `l`:
+    next mode, rest of the input, error and delivered calls. -/
+theorem decodeStyling_code_tie (l : CallLog) (src : Bytes) (hs : src ≠ []) :
+    decode_decodeStyling__pnil logOps l src = stepResOf l (Dec.decodeStyling src) := by
+  obtain ⟨opcode, rest, rfl⟩ := List.exists_cons_of_ne_nil hs
+  unfold decode_decodeStyling__pnil
+  simp only [decAux_sliceGet_zero, Prod.eta]
+  by_cases c1 : opcode < 0x80
+  · by_cases c2 : opcode < 0x40
+    · simp [Dec.decodeStyling, c1, c2, stepResOf, logOps, modeName, Go.slice]
+    · simp [Dec.decodeStyling, c1, c2, stepResOf, logOps, modeName, Go.slice]
+  · simp only [c1, decide_false, Bool.false_eq_true, if_false]
+    by_cases c3 : opcode < 0xa8
+    · simp only [c3, decide_true, if_true]
+      rw [decodeSetCReg_code_tie l _ opcode hs (UInt8.not_lt.1 c1) c3, List.tail_cons]
+    · simp only [c3, decide_false, Bool.false_eq_true, if_false]
+      by_cases c4 : opcode < 0xc0
+      · simp only [c4, decide_true, if_true]
+        rw [decodeSetNReg_code_tie l _ opcode hs (UInt8.not_lt.1 c3) c4, List.tail_cons]
+      · simp only [c4, decide_false, Bool.false_eq_true, if_false]
+        by_cases c5 : opcode < 0xc7
+        · simp only [c5, decide_true, if_true]
+          rw [decodeStartPath_code_tie l _ opcode hs (UInt8.not_lt.1 c4) c5, List.tail_cons]
+        · simp only [c5, decide_false, Bool.false_eq_true, if_false]
+          by_cases c6 : opcode = 0xc7
+          · subst c6
+            simp only [decide_true, if_true]
+            rw [decodeSetLOD_code_tie l _ hs, List.tail_cons]
+          · simp only [c6, decide_false, Bool.false_eq_true, if_false]
+            simp [Dec.decodeStyling, c1, c3, c4, c5, c6, stepResOf, errText]
+
+/-- FINDING (documented, not a defect): on the EMPTY buffer (excluded by `decode`'s loop condition `len(src) > 0`; `src[0]` panics in Go) the translation
+    reads the default byte 0 and delivers `SetCSel(0)`, whereas the model reports `unsupportedStylingOpcode` -/
+example : decode_decodeStyling__pnil logOps [] [] = (Go.fnRef "decode_decodeStyling", [], none, [.setCSel 0]) ∧
+    Dec.decodeStyling [] = ([], .error .unsupportedStylingOpcode) := ⟨by decide, rfl⟩
 
 end Ivg.Gen.Tie
